@@ -172,6 +172,8 @@ class Sym:
                 return Lin.of_const(v)
             if isinstance(v, float) and v == int(v):
                 return Lin.of_const(int(v))
+            if isinstance(v, (str, bytes)) and isinstance(e, (ast.Name, ast.Attribute)):
+                return Lin.of_term(("const", repr(v)))      # a named string constant is the literal it stands for
         except (NotConst, Exception):
             pass
         if isinstance(e, ast.Name):
